@@ -1,10 +1,10 @@
 SPECIFICATION Spec
 CONSTANTS
- NW = 2  BS = 2  Total = 3  Chunk = 1  HdrSz = 1  TailSz = 2
- Timeout = TRUE  Spurious = FALSE  MayFail = FALSE
+ NW = 2  BS = 2  Total = 2  Chunk = 1  HdrSz = 1  TailSz = 2
+ Timeout = FALSE  Spurious = FALSE  MayFail = FALSE
  Gives = {0, 1, 100}  Spaces = {0, 1, 100}
- FlushActs = {}
- MaxCalls = 7
+ FlushActs = {"FULL_FLUSH"}
+ MaxCalls = 5
 CONSTRAINT CallBound
 VIEW MCView
 INVARIANTS OrderedOutput BlocksPartitionInput BoundariesOnlyWhereRequested FlushCompletes BarrierCompletes FinishCompletes ProgressTruthful BufErrorOnlyWhenStarved DocumentedCodes QueueBound EndJoinsAll
